@@ -133,7 +133,7 @@ type Engine struct {
 	oblig       map[string][2]int64
 	summarise   map[string]bool
 	summaries   map[string][]outcome
-	solver2     *smt.Solver
+	auxSolvers  []*smt.Solver
 	mergedDepth int
 	lastObligations map[string][2]int64
 
@@ -191,8 +191,8 @@ func NewEngine(p *Program, cfg Config) (*Engine, error) {
 
 func (e *Engine) Close() {
 	e.solver.Close()
-	if e.solver2 != nil {
-		e.solver2.Close()
+	for _, s := range e.auxSolvers {
+		s.Close()
 	}
 }
 
